@@ -20,9 +20,12 @@ TEXTS = {
         text="Proved for every history of messages, captain operations and direct calls: the store obtained by folding every "
              "Result.Changed in order equals the live crew after every message (C15_store_tracks_crew, by an invariant that also "
              "justifies suppression against the previous report), a crew booted from the store has the same machines (C15_boot_equiv), "
-             "the same store keeps tracking it and it produces the same outputs on every later history (C15_restart_unobservable). On "
+             "the same store keeps tracking it and it produces the same outputs on every later history (C15_restart_unobservable - since "
+             "the repair of D56 without any hypothesis on the captain: C15_captain_never_inert is an invariant of every reachable crew; "
+             "for crews that are not reachable the hypothesis is necessary, C15_any_crew_needs_captain). On "
              "every run the real Stdio consumer folds the real reports into its state file, a second crew is booted from the file at "
              "every message boundary and runs the rest of the history; store, booted crew and outputs are compared with the live crew.",
         note=SIO_NOTE + " Partial: restart equivalence is proved under one shared schedule; across schedules (Go's random map order) it "
-             "is observed on histories that commute. A captain holding a non-operation message is outside the property's histories."),
+             "is observed on histories that commute. Crew operations whose specification does not compile are exercised by a probe at the end "
+             "of every history (D57), not modelled."),
 }
